@@ -297,7 +297,30 @@ Final(op, side, other) ==
                       op |-> op, side |-> side, other |-> other, res |-> res']))
     /\ UNCHANGED <<base, logging, origin, path>>
 
+\* Control group: the defined / undefined tests and the default filter applied to
+\* values that are NOT undefined ("return true if the variable is defined"; "if the
+\* value is undefined it will return the passed default value, otherwise the value of
+\* the variable"; with the second parameter true, also for values that are false).
+DefinedKinds == {"none", "zero", "empty_str", "empty_list", "false", "one", "text", "object"}
+FalsyKinds   == {"none", "zero", "empty_str", "empty_list", "false"}
+ControlValue(kind, op) ==
+    CASE op = "defined"      -> "true"
+      [] op = "undefined"    -> "false"
+      [] op = "default"      -> "the_value"
+      [] op = "default_bool" -> IF kind \in FalsyKinds THEN "default_value" ELSE "the_value"
+
+Control(kind, op) ==
+    /\ cur = "undef" /\ path = <<>> /\ base = "Undefined" /\ ~logging /\ origin = "name"
+    /\ cur' = "control"
+    /\ last' = [op |-> op, side |-> "l", other |-> kind]
+    /\ res' = [kind |-> "value", val |-> ControlValue(kind, op), blame |-> "nobody",
+               msg |-> NoText, shown |-> NoText, log |-> "none"]
+    /\ PrintT(ToJson([base |-> "Defined", logging |-> FALSE, origin |-> kind, path |-> <<>>,
+                      op |-> op, side |-> "l", other |-> "none", res |-> res']))
+    /\ UNCHANGED <<base, logging, origin, path>>
+
 Next ==
+    \/ \E kind \in DefinedKinds : \E op \in {"defined", "undefined", "default", "default_bool"} : Control(kind, op)
     \/ \E a \in AccessOps : Access(a)
     \/ \E op \in Ops : \E side \in SidesOf(op) : \E other \in OthersAt(op) : Final(op, side, other)
 
@@ -310,7 +333,7 @@ Spec == Init /\ [][Next]_vars
 TypeOK ==
     /\ base \in Bases /\ logging \in BOOLEAN /\ origin \in Origins
     /\ path \in Seq(AccessOps) /\ Len(path) <= MaxDepth
-    /\ cur \in {"undef", "done"}
+    /\ cur \in {"undef", "done", "control"}
     /\ cur = "done" => res.kind \in {"value", "raises", "self"}
 
 \* "you can do nothing with it except checking if it's defined": everything
@@ -345,6 +368,13 @@ C21_DebugOnlyDiffersInPrint ==
         LET d == Result("Undefined", logging, origin, last.op, last.side, last.other)
         IN IF last.op \in PrintOps THEN res.val = "debug_str" /\ d.val = "empty_str" /\ res.shown = DebugText(origin)
            ELSE res = d
+
+\* the tests tell defined values from undefined ones, whatever the value
+C21_TestsSeparateDefinedFromUndefined ==
+    /\ cur = "control" /\ last.op \in {"defined", "undefined"} =>
+          res.val # Result("Undefined", FALSE, "name", last.op, "l", "none").val
+    /\ cur = "done" /\ last.op \in {"defined", "undefined"} =>
+          \A kind \in DefinedKinds : res.val # ControlValue(kind, last.op)
 
 \* logging variants behave like their base and log printing and iteration
 C21_LoggingKeepsBase ==
